@@ -1383,7 +1383,7 @@ func opTable() map[string]func(*Interp) error {
 				return true, err
 			})
 		case Dict:
-			if len(o.D.M) > 1 {
+			if len(o.D.M) > 1 && !discardsPair(proc.(Arr)) {
 				return unsup("forall over a dictionary with several entries: enumeration order is unspecified")
 			}
 			in.popN(2)
@@ -1668,4 +1668,20 @@ func flatSize(p TProc) int {
 		}
 	}
 	return n
+}
+
+// discardsPair reports whether a forall body starts with `pop pop`, i.e.
+// throws the key/value pair away: such a body sees the same thing in every
+// enumeration order (as long as it does not look at the dictionary itself).
+func discardsPair(p Arr) bool {
+	if p.N < 2 {
+		return false
+	}
+	for i := 0; i < 2; i++ {
+		n, ok := p.St.E[p.Off+i].(Name)
+		if !ok || !n.Exec || n.S != "pop" {
+			return false
+		}
+	}
+	return true
 }
